@@ -230,6 +230,8 @@ def record_restructure(
         for name, fn in steps:
             if reload_between and name != "closed":
                 # write the graph out and read it back between stages (C18 histories); the new object replaces the old
+                # marker first: names drawn while the new graph is being built belong to the NEW generator's family
+                t.log("reload", "b", st0["root"], {"before": name})
                 try:
                     scfg2, _ = SCFG.from_dict(scfg.to_dict())
                     scfg = scfg2
